@@ -92,7 +92,7 @@ ObsOK(T, st) ==
 
 (* With a narrow focus, continue from the logged observables plus the      *)
 (* hidden parts (recorded peer timestamps, nonce table) of the model.      *)
-Adopt(T, st) ==
+AdoptStore(T, st) ==
     [T EXCEPT
      !.node  = [n \in DOMAIN st.node |-> st.node[n]],
      !.track = [n \in DOMAIN st.node |->
@@ -102,6 +102,13 @@ Adopt(T, st) ==
      !.acct  = [a \in {x \in DOMAIN st.acct : st.acct[x].account # "" \/ st.acct[x].credit # 0} |->
                   [credit |-> st.acct[a].credit, name |-> st.acct[a].account]],
      !.trial = [n \in {x \in DOMAIN st.bal : x \notin DOMAIN st.link /\ st.bal[x].credit # 0} |-> st.bal[n].credit]]
+
+\* a pool state (VipPool) also carries what was paid out and the deposits
+Adopt(T, st) ==
+    LET B == AdoptStore(T, st) IN
+    IF "paid" \in DOMAIN B /\ "paid" \in DOMAIN st
+    THEN [B EXCEPT !.paid = [w \in DOMAIN st.paid |-> st.paid[w]], !.dep = [w \in DOMAIN st.dep |-> st.dep[w]]]
+    ELSE B
 
 Finish(T, ln) ==
     /\ Chk("time@StoreTrace:97", F("time") => ln.now = T.now)
